@@ -69,7 +69,75 @@ impl Space {
 
 impl ObjectId {
     pub fn next() -> Self {
+        #[cfg(googlefonts_fontations_verif)]
+        {
+            // Verification hook (H1b): optionally skip ids first (as if other compilations had
+            // allocated them) and record the id handed out.
+            verif::before_next(&OBJECT_COUNTER);
+            let id = ObjectId(OBJECT_COUNTER.fetch_add(1, std::sync::atomic::Ordering::Relaxed));
+            verif::record(id.0);
+            return id;
+        }
+        #[allow(unreachable_code)]
         ObjectId(OBJECT_COUNTER.fetch_add(1, std::sync::atomic::Ordering::Relaxed))
+    }
+}
+
+/// Verification hook (H1b): a thread-local gap injector and id log for [`ObjectId::next`].
+///
+/// Because the process-wide counter is only ever touched by an atomic `fetch_add`, any
+/// interleaving of concurrent compilations looks, to one compilation, like a strictly
+/// increasing id sequence with gaps; injecting gaps replays such interleavings on one thread.
+#[cfg(googlefonts_fontations_verif)]
+pub mod verif {
+    use std::cell::RefCell;
+    use std::collections::VecDeque;
+    use std::sync::atomic::{AtomicU64, Ordering};
+
+    thread_local! {
+        static GAPS: RefCell<(Vec<u64>, usize)> = const { RefCell::new((Vec::new(), 0)) };
+        static LOG: RefCell<Option<VecDeque<u64>>> = const { RefCell::new(None) };
+    }
+
+    /// Before each allocation on this thread skip `pattern[i % len]` ids (empty: none).
+    pub fn set_gap_pattern(pattern: Vec<u64>) {
+        GAPS.with(|g| *g.borrow_mut() = (pattern, 0));
+    }
+
+    /// Start (true) or stop (false) recording the ids handed out on this thread.
+    pub fn set_logging(on: bool) {
+        LOG.with(|l| *l.borrow_mut() = if on { Some(VecDeque::new()) } else { None });
+    }
+
+    /// The ids recorded since the last call.
+    pub fn take_log() -> Vec<u64> {
+        LOG.with(|l| {
+            l.borrow_mut()
+                .as_mut()
+                .map(|q| q.drain(..).collect())
+                .unwrap_or_default()
+        })
+    }
+
+    pub(super) fn before_next(counter: &AtomicU64) {
+        GAPS.with(|g| {
+            let mut g = g.borrow_mut();
+            if !g.0.is_empty() {
+                let gap = g.0[g.1 % g.0.len()];
+                g.1 += 1;
+                if gap > 0 {
+                    counter.fetch_add(gap, Ordering::Relaxed);
+                }
+            }
+        });
+    }
+
+    pub(super) fn record(id: u64) {
+        LOG.with(|l| {
+            if let Some(q) = l.borrow_mut().as_mut() {
+                q.push_back(id);
+            }
+        });
     }
 }
 
